@@ -157,6 +157,14 @@ Qed.
 Corollary bytelex_eq (sol0 : bool) (s : str) : bytelex_ sol0 s = lex_ sol0 s.
 Proof. destruct (bytelex_safe sol0 s) as (ts & -> & ->). reflexivity. Qed.
 
+(* the byte-level lexer partitions its input into non-empty tokens *)
+Corollary bytelex_partition (sol0 : bool) (s : str) : exists ts,
+  bytelex_ sol0 s = Ok ts /\ concat (map snd ts) = s /\ Forall (fun t => snd t <> []) ts.
+Proof.
+  destruct (bytelex_safe sol0 s) as (ts & E & El). exists ts. split; [exact E|].
+  exact (lex_partition sol0 s ts El).
+Qed.
+
 (* ------------------------------------------------------------------ tie to the source *)
 (* the arms translate/bytesites.py read from src/lex.rs on this run are the transcribed ones *)
 Lemma lex_arms_src_ok : lex_sites_recognised = true /\ lex_arms_src = lex_arms.
